@@ -20,6 +20,36 @@ CLAIMED = {
     ),
 }
 
+CLAIMED.update({
+    "C02": dict(
+        text="Proof (per operation, induction over the history): the representation invariant 'file = header + well-formed record "
+             "chain; each handle's index = a prefix of the chain' is shown to be established/preserved by put, get, keys and "
+             "map_blocks (loop invariant over the unbounded scan) for every key/value size and any number of records, on normal and "
+             "exceptional exits; get(k) = the put value, listing = put keys, failed operations change neither file nor view.",
+        ref="DESIGN.md section 3 C02",
+        note="Byte store abstracted by Bytes/file axioms (read-over-write) and struct pack/unpack axioms (trusted); a handle that "
+             "appends is Sync (no foreign append since its last scan: guaranteed by the Collection lock, C04); recreating a file "
+             "(mode w/x) while stale handles exist is outside the insert-only claim; history quantifier by induction on the invariant.",
+    ),
+    "C03": dict(
+        text="Proof: for every crash image (header + n complete records + any proper prefix of one record encoding, all sizes, all "
+             "offsets) map_blocks indexes exactly the complete records and never the torn one; for every byte string at all no "
+             "indexed record extends past EOF; open('a') re-establishes Sync (torn tail dropped), i.e. put's precondition of C02.",
+        ref="DESIGN.md section 3 C03",
+        note="Assumes a killed process leaves a prefix of the bytes written in program order (OS/BufferedRandom); byte-store and "
+             "struct axioms as in C02; a bounded witness search on the real code is used only to produce replay inputs.",
+    ),
+    "C04": dict(
+        text="Proof of the sequential part: every control-flow path through reading()/writing() with an exception possible at lock "
+             "acquisition, begin_*, update_keys, the body, each flushed write and end_* ends with the lock released, every stream "
+             "closed, state idle, and all file access inside the lock bracket. Modular: UKVFile.open/__init__/put/close exit "
+             "contracts are proved against their bodies (fault injected at every I/O call) and used at the call sites.",
+        ref="DESIGN.md section 3 C04, section 4",
+        note="Mutual exclusion of fasteners' locks and real multi-process schedules are NOT decided (assumed lock contract); "
+             "single-fault enumeration per path; write queue 0..2 items in the session units.",
+    ),
+})
+
 NOT_APPLICABLE = {
 }
 
